@@ -772,6 +772,9 @@ where
     let ps_ref = Rc::new(RefCell::new(ps));
     let job_futures: FuturesUnordered<Pin<Box<dyn Future<Output = ()>>>> = FuturesUnordered::new();
     pin_mut!(job_futures);
+    // The two loops run inside this block so that an error that leaves them
+    // early still reaches the code below that waits for the started jobs.
+    let loops_result: Result<(), RedoError> = async {
     {
         let mut seen: HashSet<RedoPathBuf> = HashSet::new();
         for i in target_order.iter().copied() {
@@ -947,9 +950,15 @@ where
             }
         }
     }
+    Ok(())
+    }
+    .await;
     // TODO(maybe): Use !job_futures.is_empty() instead of server.is_running() in
     // the above loop.
+    // Jobs that are still running own their target's lock and have not recorded
+    // their result yet: wait for them on every path, also after an error.
     job_futures.fold((), |_, _| future::ready(())).await;
+    loops_result?;
     #[cfg(feature = "verif")]
     crate::verif::point("run.end", "");
     result.replace(Ok(()))
